@@ -3,6 +3,7 @@ import TantivyModel.Proofs.Columnar.LinearColumn
 import TantivyModel.Proofs.Columnar.OptRankSelect
 import TantivyModel.Proofs.Columnar.Column
 import TantivyModel.Proofs.Columnar.RangeLookup
+import TantivyModel.Proofs.Columnar.CompactColumnMain
 /-!
 `open_column_u64 ∘ serialize_column_mappable_to_u64` on the whole column file.
 -/
@@ -126,6 +127,52 @@ theorem columnFile_read (sc vc : Nat) (idx : Index) (vals : List Nat) (bytes : B
   have hd' : d < idx.numDocs vals.length := List.mem_range.mp hd
   unfold ColFile.readRow readRow
   simp only [hvals, hrows d hd']
+
+theorem colFile_read_eq (f : ColFile) (idx : Index) (vals : List Nat) (hvals : f.vals = vals)
+    (hnd : f.idx.numDocs vals.length = idx.numDocs vals.length)
+    (hrows : ∀ d, d < idx.numDocs vals.length → f.idx.valueRowIds d = idx.valueRowIds d) :
+    f.read = read idx vals := by
+  unfold ColFile.read read
+  rw [hvals, hnd]
+  apply List.map_congr_left
+  intro d hd
+  have hd' : d < idx.numDocs vals.length := List.mem_range.mp hd
+  unfold ColFile.readRow readRow
+  simp only [hvals, hrows d hd']
+
+theorem decodeU128Column_enc (rs : Ranges) (hv : ValidRanges rs) (hmax : ∀ r ∈ rs, r.2 ≤ U128MAX)
+    (hnr : rs.length ≤ 100000000) (hamp : amplitude rs < 2 ^ 64)
+    (vals : List Nat) (hcov : ∀ v ∈ vals, Covered rs v) (hlen : vals.length < 2 ^ 32) :
+    decodeU128Column (ipColumnEnc rs vals) = some vals := by
+  obtain ⟨c, hc, hn, _, hget⟩ := compact_column_roundtrip rs hv hmax hnr hamp vals hcov hlen
+  unfold decodeU128Column
+  rw [hc]
+  simp only [Option.map_some, Option.some.injEq]
+  apply List.ext_getElem
+  · simp [hn]
+  · intro i h1 h2
+    simp only [List.getElem_map, List.getElem_range]
+    exact hget i h2
+
+theorem columnFile128_read (sc : Nat) (rs : Ranges) (idx : Index) (vals : List Nat) (bytes : Bytes)
+    (hok : IndexOk idx) (hv : ValidRanges rs) (hmax : ∀ r ∈ rs, r.2 ≤ U128MAX)
+    (hnr : rs.length ≤ 100000000) (hamp : amplitude rs < 2 ^ 64)
+    (hcov : ∀ v ∈ vals, Covered rs v) (hlen : vals.length < 2 ^ 32)
+    (hibl : ∀ ib, indexEnc sc idx = some ib → ib.length < 2 ^ 32)
+    (henc : columnFileEnc128 sc rs idx vals = some bytes) :
+    ∃ f, openColumnFile128 bytes = some f ∧ f.read = read idx vals := by
+  unfold columnFileEnc128 at henc
+  simp only [Option.bind_eq_bind] at henc
+  cases hib : indexEnc sc idx with
+  | none => rw [hib] at henc; cases henc
+  | some ib =>
+    rw [hib] at henc
+    simp only [Option.bind_some, Option.some.injEq] at henc
+    subst henc
+    obtain ⟨fi, hfi, hnd, hrows⟩ := openIndex_enc sc idx vals.length ib hok hib (hibl ib hib)
+    refine ⟨⟨fi, vals⟩, ?_, colFile_read_eq ⟨fi, vals⟩ idx vals rfl hnd hrows⟩
+    unfold openColumnFile128
+    simp [splitByFooter_enc' ib _ (hibl ib hib), hfi, decodeU128Column_enc rs hv hmax hnr hamp vals hcov hlen]
 
 theorem prefixSums_le (l : List Nat) (acc : Nat) : ∀ x ∈ prefixSums l acc, x ≤ acc + l.sum := by
   induction l generalizing acc with
